@@ -1115,7 +1115,7 @@ func (fc *FuncCtx) havocGhosts(h *State, nodes ...ast.Node) {
 			touched = calls[strings.TrimPrefix(k, "calls_")]
 		case strings.HasPrefix(k, "sends_"), strings.HasPrefix(k, "lastsent_"):
 			touched = anySend
-		case strings.HasPrefix(k, "recvs_"):
+		case strings.HasPrefix(k, "recvs_"), strings.HasPrefix(k, "lastrecv_"):
 			touched = anyRecv
 		case strings.HasPrefix(k, "full_"):
 			touched = anySelect
